@@ -51,7 +51,10 @@ func vaaBytes(e emitter, seq uint64) []byte {
 }
 
 // filter sets a subscriber may use (indices into emitters; nil = no filters = everything)
-var filterSets = [][]int{nil, {0}, {1}, {2}, {0, 1}, {1, 0}, {2, 0}, {0, 0}}
+// -1 stands for a filter entry of a kind the server does not support (the oneof is unset, as a request from a
+// newer client or a JSON body {"filters":[{}]} arrives): such a request asks for filtering the server cannot
+// do - it must be refused, or at least must never be served as "no filter" (every VAA)
+var filterSets = [][]int{nil, {0}, {1}, {2}, {0, 1}, {1, 0}, {2, 0}, {0, 0}, {-1}, {-1, -1}}
 
 func matches(fs []int, e int) bool {
 	if fs == nil {
@@ -273,7 +276,13 @@ func (s *sys) Apply(ei int, hist []int, check bool) {
 		sb := s.subs[e.I]
 		sb.st, sb.filters, sb.fidx, sb.active, sb.done = newStreamFor(e.I), filterSets[e.F], e.F, true, make(chan error, 1)
 		req := &spyv1.SubscribeSignedVAARequest{}
+		unsupported := false
 		for _, f := range sb.filters {
+			if f < 0 {
+				req.Filters = append(req.Filters, &spyv1.FilterEntry{})
+				unsupported = true
+				continue
+			}
 			req.Filters = append(req.Filters, &spyv1.FilterEntry{Filter: &spyv1.FilterEntry_EmitterFilter{EmitterFilter: &spyv1.EmitterFilter{
 				ChainId: publicrpcv1.ChainID(emitters[f].chain), EmitterAddress: hex.EncodeToString(emitters[f].addr[:])}}})
 		}
@@ -281,6 +290,19 @@ func (s *sys) Apply(ei int, hist []int, check bool) {
 		go func() { gid <- quiesce.SelfID(); sb.done <- s.srv.SubscribeSignedVAA(req, sb.st) }()
 		gs := s.quiesce()
 		sb.gid = <-gid
+		if unsupported {
+			select {
+			case err := <-sb.done:
+				// refused (or ended): this subscriber is not connected
+				sb.active, sb.gone = false, true
+				if err == nil && check {
+					s.viol("a subscription request with only unsupported filter entries ended without an error", "", hist)
+				}
+				return
+			default:
+				// accepted: from here on it is a connected subscriber whose filters match nothing
+			}
+		}
 		if sb.st.polled == 0 { // never reached its receive loop
 			s.dead = true
 			if check {
@@ -396,6 +418,10 @@ func describe(fs []int) string {
 	}
 	var out []string
 	for _, f := range fs {
+		if f < 0 {
+			out = append(out, "(unsupported entry)")
+			continue
+		}
 		out = append(out, fmt.Sprintf("(chain %d, %x..)", emitters[f].chain, emitters[f].addr[:1]))
 	}
 	return strings.Join(out, " ")
@@ -473,6 +499,7 @@ func configs() []config {
 	}
 	return []config{
 		mk("filters-2subs", 2, []int{0, 1, 2, 4, 5, 6, 7}, []int{0, 1, 2}, false),
+		mk("unsupported-filters-2subs", 2, []int{0, 1, 8, 9}, []int{0, 1}, false),
 		mk("filters-3subs", 3, []int{0, 1, 4}, []int{0, 1}, false),
 		mk("stall-2subs", 2, []int{0, 1, 3}, []int{0, 2}, true),
 		mk("stall-3subs", 3, []int{0, 2}, []int{0}, true),
